@@ -67,6 +67,13 @@ extern jmp_buf verif_jmp;
 #define __CPROVER_assume(c) ((void)0)
 #endif
 
+/* harness inputs of type bool: an uninitialised _Bool local is an arbitrary byte for cbmc */
+#ifdef VERIF_CBMC
+static inline _Bool verif_nondet_bool(void) { unsigned char verif_c; return verif_c != 0; }
+#else
+#define verif_nondet_bool() 0
+#endif
+
 /* ghost input buffer for cursor kernels: the cursor struct has no begin pointer, the
  * contracts carry it. */
 extern const char *g_buf;
